@@ -5,16 +5,11 @@ From Coq Require Import ZArith List Bool Lia String FinFun.
 Require Import Rig.Generated.GenMemOps Rig.Generated.GenSCP Rig.Model.Base Rig.Model.Machine Rig.Model.MemOps
   Rig.Model.MemOpsState Rig.Spec.MemOps Rig.Proofs.MemOpsArith Rig.Proofs.MemOps Rig.Proofs.MemOpsChunks
   Rig.Proofs.MemOpsExact Rig.Proofs.MemOpsTop.
-Require Rig.Model.SCP Rig.Spec.SCP Rig.Proofs.SCP.
+Require Rig.Model.SCP Rig.Spec.SCP Rig.Proofs.SCP Rig.Proofs.SCPReply.
 Import ListNotations.
 Open Scope Z_scope.
 
 (* ------------------------------------------------------------------ struct tables as state *)
-Definition sfile_ok (S : sfile) : Prop :=
-  (forall name off n, field_find name (sf_sv S) = Some (off, n) ->
-     0 <= sf_sv_base S + off /\ 0 <= n /\ sf_sv_base S + off + n <= 2 ^ 32) /\
-  (forall name off n, field_find name (sf_vcpu S) = Some (off, n) -> 0 <= off /\ 0 <= n).
-
 Lemma default_sfile_ok : sfile_ok default_sfile.
 Proof.
   split; cbn [default_sfile sf_sv sf_sv_base sf_vcpu].
@@ -49,11 +44,6 @@ Proof.
   unfold struct_field_address. destruct (Hsv _ _ _ Hf) as (H1 & H2 & H3).
   apply sc_write_exact; lia.
 Qed.
-
-(* the address of a per-core field per the CURRENT tables: the word stored in the current sv.vcpu_base +
-   current block size * core + current field offset *)
-Definition st_vcpu_addr (S : sfile) (vboff : Z) (M : machine) (c : chip) (p off : Z) : Z :=
-  le_word (mem_range (M c) (sf_sv_base S + vboff) 4) + sf_vcpu_size S * p + off.
 
 Lemma st_vcpu_address_ok : forall ct buffer nbr M c p name off n vboff,
   sfile_ok (ctl_structs ct) -> 1 <= buffer < 2 ^ 32 ->
@@ -163,16 +153,49 @@ Proof.
     + rewrite Nat2Z.id, Hi. left. reflexivity.
 Qed.
 
-(* a read over a burst: exact when the burst returns -- whatever the connection's sequence counter, window and
-   network did -- and an exception (never other bytes) when it does not *)
-Lemma sc_read_burst_exact_or_raises : forall cf evs k buffer nbr M c core address length r,
+(* when every callback is handed the reply to its own command, the served pairs are the diagonal of the callback
+   order, and running them is the order-run of Model/MemOps.v *)
+Lemma callback_ids_callbacks : forall tr, callback_ids tr = map fst (callbacks tr).
+Proof.
+  induction tr as [|o tr IH]; [reflexivity|]. unfold callback_ids, callbacks in *. cbn [flat_map].
+  rewrite map_app, <- IH. destruct o; reflexivity.
+Qed.
+
+Lemma served_diagonal : forall (A : Type) (cs : list A) hist tr,
+  own_replies hist tr = true -> served cs hist tr = map (fun x => (x, x)) (order_of cs tr).
+Proof.
+  intros A cs hist tr H. unfold served, order_of, own_replies in *. rewrite callback_ids_callbacks.
+  induction (callbacks tr) as [|[c d] cbs IH]; [reflexivity|].
+  cbn [forallb fst snd] in H. apply andb_true_iff in H. destruct H as [H1 H2].
+  cbn [flat_map map fst snd]. rewrite map_app, (IH H2). f_equal.
+  destruct (owner_of hist (Model.SCP.d_src d)) as [c'|]; [|discriminate].
+  apply Z.eqb_eq in H1. subst c'.
+  destruct (nth_error cs (Z.to_nat c)); reflexivity.
+Qed.
+
+Lemma read_run_served_diagonal : forall E c core order M buf,
+  read_run_served E M c core (map (fun x => (x, x)) order) buf = read_run E M c core order buf.
+Proof.
+  intros E c core order. induction order as [|k rest IH]; intros M buf; [reflexivity|].
+  cbn [map read_run_served read_run].
+  destruct (issue E M c core (rk_call k)) as [[[M' r] d] | | |]; cbn [bind]; try reflexivity.
+  destruct (splice buf (rk_lo k) (rk_hi k) d); cbn [bind]; try reflexivity.
+  rewrite IH. reflexivity.
+Qed.
+
+(* a read over a burst in which every callback received the reply to its own command: exact when the burst
+   returns, an exception (never other bytes) when it does not *)
+Lemma sc_read_burst_exact_or_raises : forall cf evs k past buffer nbr M c core address length r,
   0 <= address -> 0 <= length -> address + length <= 2 ^ 32 -> 1 <= buffer < 2 ^ 32 ->
-  sc_read_burst cf evs k (mk_env buffer nbr) M c core address length = r ->
+  (forall tr k' rest cs, read_chunks address length buffer = Ok cs ->
+     Model.SCP.burst cf (burst_cmds (List.length cs)) evs k = (tr, Model.SCP.Returned, k', rest) ->
+     own_replies (past ++ tr) tr = true) ->
+  sc_read_burst cf evs k past (mk_env buffer nbr) M c core address length = r ->
   (exists tr, r = Ok (tr, mem_range (M c) address length) /\ trace_ok buffer tr /\
               Forall (fun q => is_read_cmd (rq_cmd q)) tr) \/
   (forall v, r <> Ok v).
 Proof.
-  intros cf evs k buffer nbr M c core address length r Ha Hl Htop Hb Hr. unfold sc_read_burst in Hr.
+  intros cf evs k past buffer nbr M c core address length r Ha Hl Htop Hb Hown Hr. unfold sc_read_burst in Hr.
   destruct (length <? 0) eqn:E; [apply Z.ltb_lt in E; lia|].
   cbn [mk_env e_buffer] in Hr.
   destruct (read_chunks_tiles address length buffer ltac:(lia) Hl) as (cs & Hcs & Ht).
@@ -180,20 +203,67 @@ Proof.
   destruct (Model.SCP.burst cf (burst_cmds (List.length cs)) evs k) as [[[tr oc] k'] rest] eqn:Eb.
   destruct oc; try (right; intros v Hv; subst r; discriminate).
   left. pose proof (order_of_covers _ cs _ _ _ _ _ _ Eb) as Hcov.
+  rewrite (served_diagonal _ cs _ _ (Hown _ _ _ _ Hcs Eb)), read_run_served_diagonal in Hr.
   destruct (read_run_exact buffer nbr M c core address length cs (order_of cs tr) Ha Hl Htop Hb Ht Hcov)
     as (tr' & Hrun & Hok & Hrd & _).
   exists tr'. rewrite Hrun in Hr. subst r. auto.
 Qed.
 
+Lemma owner_of_in : forall hist tx c, owner_of hist tx = Some c -> exists s t, In (Model.SCP.OSend tx c s t) hist.
+Proof.
+  induction hist as [|o hist IH]; intros tx c H; cbn [owner_of] in H; [discriminate|].
+  destruct o as [tx' c' s t | | |]; try (destruct (IH _ _ H) as (s0 & t0 & Hin); exists s0, t0; right; exact Hin).
+  destruct (tx' =? tx) eqn:E.
+  - apply Z.eqb_eq in E. inversion H; subst. exists s, t. left. reflexivity.
+  - destruct (IH _ _ H) as (s0 & t0 & Hin). exists s0, t0. right. exact Hin.
+Qed.
+
+Lemma owner_of_some : forall hist tx c s t, In (Model.SCP.OSend tx c s t) hist -> exists c', owner_of hist tx = Some c'.
+Proof.
+  induction hist as [|o hist IH]; intros tx c s t H; [contradiction|]. cbn [owner_of].
+  destruct H as [-> | H].
+  - rewrite Z.eqb_refl. eauto.
+  - destruct o as [tx' c' s' t' | | |]; try (eapply IH; exact H).
+    destruct (tx' =? tx); [eauto | eapply IH; exact H].
+Qed.
+
+Lemma own_replies_of_reply_to : forall hist tr,
+  tx_unique hist ->
+  (forall c d, In (Model.SCP.OCallback c d) tr -> Spec.SCP.reply_to hist c d) ->
+  own_replies hist tr = true.
+Proof.
+  intros hist tr Hu Hr. unfold own_replies. apply forallb_forall. intros [c d] Hin. cbn [fst snd].
+  assert (Hcb : In (Model.SCP.OCallback c d) tr).
+  { unfold callbacks in Hin. apply in_flat_map in Hin. destruct Hin as (o & Ho & Hin).
+    destruct o; cbn in Hin; try contradiction. destruct Hin as [Heq | []]. inversion Heq; subst. exact Ho. }
+  destruct (Hr _ _ Hcb) as (_ & t & Hs).
+  destruct (owner_of_some _ _ _ _ _ Hs) as (c' & Hc'). rewrite Hc'.
+  destruct (owner_of_in _ _ _ Hc') as (s0 & t0 & Hin0).
+  apply Z.eqb_eq. exact (Hu _ _ _ _ _ _ _ Hin0 Hs).
+Qed.
+
+(* ... hence, under C06's own hypotheses *)
+Lemma own_replies_under_c06 : forall cf n evs k past tr oc k' rest,
+  Spec.SCP.config_ok cf -> Spec.SCP.history_ok past k (burst_cmds n) ->
+  Model.SCP.burst cf (burst_cmds n) evs k = (tr, oc, k', rest) ->
+  Spec.SCP.causal (past ++ tr) -> Spec.SCP.fresh (past ++ tr) -> tx_unique (past ++ tr) ->
+  own_replies (past ++ tr) tr = true.
+Proof.
+  intros cf n evs k past tr oc k' rest Hcf Hh Hb Hc Hf Hu.
+  apply own_replies_of_reply_to; [exact Hu|].
+  exact (Proofs.SCPReply.reply_matches cf _ evs k past tr oc k' rest Hcf (burst_cmds_nodup n) Hh Hb Hc Hf).
+Qed.
+
 (* writes: when the burst returns, exactly the data is stored *)
-Lemma call_run_burst_exact : forall cf evs k tr k' rest buffer nbr M c core address data cs,
+Lemma call_run_burst_exact : forall cf evs k past tr k' rest buffer nbr M c core address data cs,
   0 <= address -> address + zlen data <= 2 ^ 32 -> 1 <= buffer < 2 ^ 32 ->
   write_chunks address buffer data = Ok cs ->
   Model.SCP.burst cf (burst_cmds (List.length cs)) evs k = (tr, Model.SCP.Returned, k', rest) ->
+  own_replies (past ++ tr) tr = true ->
   exists trq M', call_run (mk_env buffer nbr) M c core (order_of cs tr) = Ok (trq, M') /\
                  stored_exactly M M' c address data /\ trace_ok buffer trq.
 Proof.
-  intros cf evs k tr k' rest buffer nbr M c core address data cs Ha Htop Hb Hcs Hburst.
+  intros cf evs k past tr k' rest buffer nbr M c core address data cs Ha Htop Hb Hcs Hburst _.
   destruct (write_chunks_tiles address buffer data ltac:(lia)) as (cs' & Hcs' & Ht).
   rewrite Hcs in Hcs'. inversion Hcs'; subst cs'.
   pose proof (order_of_covers _ cs _ _ _ _ _ _ Hburst) as Hcov.
